@@ -26,7 +26,11 @@ def hypergraph_cases(draw, kinds=("ints", "strs"), min_nodes=3, max_nodes=8, min
     second time (must be an observational no-op for the structure)."""
     U = draw(S.universes(min_nodes, max_nodes, kinds))
     n = len(U["labels"])
-    edges = draw(S.edge_sets(n, min_edges, max_edges, min_size, max_size))
+    # the lower bound of the listing is drawn too, otherwise Hypothesis' size
+    # distribution makes a quarter of the cases empty
+    room = _n_subsets(n, min_size, max_size)
+    lo = draw(st.integers(min_edges, max(min_edges, min(4, max_edges, room))))
+    edges = draw(S.edge_sets(n, min(lo, room), min(max_edges, room), min_size, max_size))
     weighted = draw(st.booleans()) if allow_weighted else False
     weights = [draw(S.weights_int) for _ in edges] if weighted else None
     readd = []
@@ -39,6 +43,11 @@ def hypergraph_cases(draw, kinds=("ints", "strs"), min_nodes=3, max_nodes=8, min
         "build": draw(st.sampled_from(["ctor", "add_edges", "add_edge"])),
         "readd": readd,
     }
+
+
+def _n_subsets(n, min_size, max_size):
+    from math import comb
+    return sum(comb(n, k) for k in range(min_size, min(max_size, n) + 1))
 
 
 def content(hc):
@@ -123,7 +132,8 @@ def directed_cases(draw, kinds=("ints", "strs"), min_nodes=3, max_nodes=7, max_e
         cut = draw(st.integers(1, len(ns) - 1))
         return [ns[:cut], ns[cut:]]
 
-    edges = draw(st.lists(one(), min_size=0, max_size=max_edges,
+    lo = draw(st.integers(0, min(4, max_edges)))   # n >= 3: at least 6 distinct directed hyperedges
+    edges = draw(st.lists(one(), min_size=lo, max_size=max_edges,
                           unique_by=lambda e: (tuple(sorted(e[0])), tuple(sorted(e[1])))))
     weighted = draw(st.booleans())
     readd = draw(st.lists(st.integers(0, len(edges) - 1), max_size=2)) if edges else []
@@ -220,7 +230,8 @@ def threshold_arg(distance, pq):
 def thresholds(draw, distance, present):
     """A threshold [p, q].  `present` = positive exact similarities occurring in
     the case; three times out of four one of those (so that some pair sits
-    exactly on the threshold), otherwise an arbitrary admissible value."""
+    exactly on the threshold; half of the time not the smallest one, so that
+    another pair lies just below), otherwise an arbitrary admissible value."""
     if distance == "intersection":
         cands = sorted({v for v in present if v >= 1})
         generic = st.integers(1, 5).map(lambda k: Fraction(k))
@@ -228,7 +239,10 @@ def thresholds(draw, distance, present):
         cands = sorted({v for v in present if v > 0 and v.denominator <= 6})
         generic = st.integers(1, 6).flatmap(
             lambda q: st.integers(1, q).map(lambda p: Fraction(p, q)))
-    if cands and draw(st.integers(0, 3)) > 0:
+    mode = draw(st.integers(0, 3))
+    if len(cands) >= 2 and mode >= 2:
+        v = draw(st.sampled_from(cands[1:]))   # something positive lies below the threshold
+    elif cands and mode >= 1:
         v = draw(st.sampled_from(cands))
     else:
         v = draw(generic)
